@@ -97,9 +97,9 @@ CANARIES = [
     ('c10-version-lost', 'C10', 'mindsdb_sql/planner/query_planner.py', "            version = name_parts[-1]\n            name_parts = name_parts[:-1]", "            name_parts = name_parts[:-1]", 'C10.model.lookup'),
     ('c10-strip-any-first', 'C10', 'mindsdb_sql/planner/query_planner.py', "            if len(node.parts) > 1 and node.parts[0].lower() == database:", "            if len(node.parts) > 1 and node.parts[0].lower() in self.databases:", 'C10.strip'),
     ('c10-dict-name-not-lowered', 'C10', 'mindsdb_sql/planner/query_planner.py', "                    integration_name = integration['name'].lower()", "                    integration_name = integration['name']", 'C10.init'),
-    ('c17-catch-less', 'C17', 'mindsdb_sql/render/sqlalchemy_render.py', "        except (SQLAlchemyError, NotImplementedError) as e:", "        except SQLAlchemyError as e:", 'C17.fallback.NotImplementedError'),
-    ('c17-fallback-swallow-off', 'C17', 'mindsdb_sql/render/sqlalchemy_render.py', "            if not with_failback:\n                raise e\n", "            if not with_failback and isinstance(e, SQLAlchemyError):\n                raise e\n", 'C17.fallback.NotImplementedError'),
-    ('c17-new-valueerror', 'C17', 'mindsdb_sql/render/sqlalchemy_render.py', "            raise NotImplementedError('Only one table is supported')", "            raise ValueError('Only one table is supported')", 'C17.raise.stmt.prepare_drop_table'),
+    ('c17-catch-less', 'C17', 'mindsdb_sql/render/sqlalchemy_render.py', "        except Exception as e:\n            if not with_failback:\n                if isinstance(e, (SQLAlchemyError, NotImplementedError)):", "        except SQLAlchemyError as e:\n            if not with_failback:\n                if isinstance(e, (SQLAlchemyError, NotImplementedError)):", 'C17.fallback.NotImplementedError'),
+    ('c17-fallback-swallow-off', 'C17', 'mindsdb_sql/render/sqlalchemy_render.py', "            if not with_failback:\n                if isinstance(e, (SQLAlchemyError, NotImplementedError)):", "            if not with_failback and isinstance(e, SQLAlchemyError):\n                if isinstance(e, (SQLAlchemyError, NotImplementedError)):", 'C17.fallback.NotImplementedError'),
+    ('c17-harmless-new-valueerror', 'C17', 'mindsdb_sql/render/sqlalchemy_render.py', "            raise NotImplementedError('Only one table is supported')", "            raise ValueError('Only one table is supported')", None),
     ('c17-mutate-alias', 'C17', 'mindsdb_sql/render/sqlalchemy_render.py', "        if alias is None or len(alias.parts) == 0:\n            return None", "        if alias is None or len(alias.parts) == 0:\n            return None\n        alias.parentheses = False", 'C17.frame.get_alias'),
     ('c20-cache-parsers', 'C20', 'mindsdb_sql/__init__.py', "def get_lexer_parser(dialect):\n    if dialect == 'sqlite':",
      "_CACHE = {}\n\n\ndef get_lexer_parser(dialect):\n    if dialect in _CACHE:\n        return _CACHE[dialect]\n    _CACHE[dialect] = _get_lexer_parser(dialect)\n    return _CACHE[dialect]\n\n\ndef _get_lexer_parser(dialect):\n    if dialect == 'sqlite':", 'C20.'),
@@ -135,7 +135,7 @@ CANARIES = [
     ('c11-alias-tables-too', 'C11', 'mindsdb_sql/planner/query_planner.py', "            if not is_table:\n                # add table name or alias for identifiers", "            if True:\n                # add table name or alias for identifiers", 'C11.edit.ident.table1'),
     ('c11-alias-in-joins', 'C11', 'mindsdb_sql/planner/query_planner.py', "                if isinstance(table, Join):\n                    # skip for join\n                    return\n", "", 'C11.edit.ident'),
     ('c11-no-rewrite', 'C11', 'mindsdb_sql/planner/query_planner.py', "                self.prepare_integration_select(int_name, query)\n\n                last_step = self.plan.add_step(FetchDataframeStep(integration=int_name, query=query))", "                last_step = self.plan.add_step(FetchDataframeStep(integration=int_name, query=query))", 'C11.shape.one-sql-integration'),
-    ('c06-left-as-inner', 'C06', 'mindsdb_sql/render/sqlalchemy_render.py', "                        if join_type == 'LEFT JOIN':\n                            method = 'outerjoin'", "                        if join_type == 'LEFT  JOIN':\n                            method = 'outerjoin'", 'C06.join.LEFT_JOIN'),
+    ('c06-left-as-inner', 'C06', 'mindsdb_sql/render/sqlalchemy_render.py', "                        if join_type in ('LEFT JOIN', 'LEFT OUTER JOIN'):\n                            method = 'outerjoin'", "                        if join_type in ('LEFT OUTER JOIN',):\n                            method = 'outerjoin'", 'C06.join.LEFT_JOIN'),
     ('c06-desc-dropped', 'C06', 'mindsdb_sql/render/sqlalchemy_render.py', "                if f.direction.upper() == 'DESC':\n                    col0 = col0.desc()\n                elif", "                if f.direction.upper() == 'DESCENDING':\n                    col0 = col0.desc()\n                elif", 'C06.order.select.DESC'),
     ('c06-union-all-swapped', 'C06', 'mindsdb_sql/render/sqlalchemy_render.py', "            func = sa.union if from_table.unique else sa.union_all", "            func = sa.union_all if from_table.unique else sa.union", 'C06.setop.UNION'),
     ('c06-operator-table', 'C06', 'mindsdb_sql/render/sqlalchemy_render.py', '                ">=": "__ge__",\n                "<=": "__le__",', '                ">=": "__gt__",\n                "<=": "__le__",', 'C06.op.GEQ'),
@@ -159,7 +159,7 @@ CANARIES = [
     ('c08-cte-any-namespace', 'C08', 'mindsdb_sql/planner/query_planner.py', "            if integration_name == self.default_namespace and table_name in self.cte_results:", "            if table_name in self.cte_results:", 'C08.cte.lookup'),
     ('c08-on-clause-or-conjuncts', 'C08', 'mindsdb_sql/planner/plan_join.py',
      "            if isinstance(node, BinaryOperation) and node.op.lower() == 'and':\n                for arg in node.args:\n                    _check_conjuncts(arg)\n            else:\n                _check_conditions(node)",
-     "            if isinstance(node, (BinaryOperation, UnaryOperation)) and node.op.lower() in ('and', 'not'):\n                for arg in node.args:\n                    _check_conjuncts(arg)\n            else:\n                _check_conditions(node)", 'C08.filter.on-path'),
+     "            if (isinstance(node, BinaryOperation) and node.op.lower() == 'and') or type(node).__name__ == 'UnaryOperation':\n                for arg in node.args:\n                    _check_conjuncts(arg)\n            else:\n                _check_conditions(node)", 'C08.filter.on-path'),
     ('c10-list-project-case', 'C10', 'mindsdb_sql/planner/query_planner.py', "                self.predictor_info[idx] = predictor\n                _projects.add(integration_name.lower())", "                self.predictor_info[idx] = predictor\n                _projects.add(integration_name)", 'C10.init.predictors'),
     ('c10-harmless-copy-method', 'C10', 'mindsdb_sql/planner/query_planner.py', "            info = dict(info)\n", "            info = {**info}\n", None),
     ('c11-cte-name-with-alias', 'C11', 'mindsdb_sql/planner/query_planner.py', "                if '.'.join(item.parts) not in cte_names", "                if item.to_string() not in cte_names", 'C11.info.cte-references'),
